@@ -67,6 +67,57 @@ def memo_check(ctx, rule, crate, crs, tag=""):
                     ok = True
             ctx.ob(rule + tag, b.key, "memo:%s" % name, ok, where_call(b, i),
                    ("provider result memoised in %s under the looked-up key" % field) if ok else why)
+    table_writers(ctx, rule, crate, tag)
+
+
+TABLE_WRITERS = {
+    "candidates": {"get_or_cache_candidates"},
+    "package_name_to_candidates": {"get_or_cache_candidates"},
+    "version_set_candidates": {"get_or_cache_matching_candidates"},
+    "version_set_inverse_candidates": {"get_or_cache_non_matching_candidates"},
+    "requirement_to_sorted_candidates": {"get_or_cache_sorted_candidates_for_version_set", "get_or_cache_sorted_candidates"},
+    "solvable_dependencies": {"get_or_cache_dependencies"},
+    "solvable_to_dependencies": {"get_or_cache_dependencies"},
+}
+
+
+def table_writers(ctx, rule, crate, tag=""):
+    """Who may write a memo table of the cache, decided by the *type* of the table written to (so a reference to the table
+    smuggled into another struct - a drop guard, a helper object - is seen too): every insert_copy / insert / alloc whose
+    receiver has the type of a SolverCache table sits in the fetch function that owns that table.  The tables persist across
+    solves; an entry that is not the provider's answer (seed C13-15: a placeholder stored for an abandoned request) poisons
+    every later solve."""
+    a = crate.adts.get(CACHE_ADT)
+    if not a:
+        ctx.ob(rule + tag, CACHE_ADT, "table-writers", False, "", "SolverCache not found")
+        return
+    by_type = {}
+    for f in a["variants"][0]["fields"]:
+        if f["name"] in TABLE_WRITERS:
+            by_type.setdefault(f["ty"], set()).update(CACHE + x for x in TABLE_WRITERS[f["name"]])
+    n = 0
+    for b in crate.bodies:
+        for i, t in b.calls():
+            f = t.get("f")
+            if f is None or f["name"] not in ("insert_copy", "insert", "alloc") or not t["args"]:
+                continue
+            p = operand_place(t["args"][0])
+            if p is None:
+                continue
+            ty = b.local_ty(p["l"])
+            while ty.startswith("&"):
+                ty = ty[1:].lstrip()
+                if ty.startswith("mut "):
+                    ty = ty[4:]
+                if ty.startswith("'"):
+                    ty = ty.split(" ", 1)[1] if " " in ty else ty
+            if ty not in by_type:
+                continue
+            n += 1
+            fn = q.enclosing_fn(crate, b)
+            ctx.ob(rule + tag, fn, "table-written-only-by-its-fetch-function:%s" % ty.split("<")[0].split("::")[-1], fn in by_type[ty], where_call(b, i),
+                   "a %s is written here; its owner is %s" % (ty[:90], sorted(x.split("::")[-1] for x in by_type[ty])))
+    ctx.floor(rule + tag, "writes to cache tables", n, 6)
 
 
 def choke_points(ctx, rule, crate, tag=""):
